@@ -18,6 +18,22 @@ import (
 type gsxVals struct {
 	x, y  int  // values of the operands x, y (for float operands: in half units)
 	float bool // operands are float64: numbers are counted in halves, so that 0.5 exists
+	// the impure operand f(): the k-th evaluation returns fvals[k]; calls counts evaluations
+	fvals  []int
+	calls  int
+	impure bool // the expression contains f()
+}
+
+// next: the value of the next evaluation of f() (a fresh symbolic value per evaluation,
+// shared by the original and the suggestion through the index).
+func (env *gsxVals) next() int {
+	k := env.calls
+	env.calls++
+	if k < len(env.fvals) {
+		return env.fvals[k]
+	}
+	gsxrt.Assume(false) // more evaluations than the harness provides values for
+	return 0
 }
 
 // gsxLit: the value of an integer literal by Go's literal grammar
@@ -59,6 +75,8 @@ func gsxNum(e ast.Expr, env *gsxVals) int {
 			return env.x
 		}
 		return env.y
+	case *ast.CallExpr:
+		return env.next()
 	case *ast.BasicLit:
 		v, ok := gsxLit(e.Value)
 		gsxrt.Assume(ok)
@@ -84,8 +102,22 @@ func gsxBool(e ast.Expr, env *gsxVals) bool {
 		return !gsxBool(e.X, env)
 	case *ast.BinaryExpr:
 		if gsxrt.Or(e.Op == token.LAND, e.Op == token.LOR) {
-			l, r := gsxBool(e.X, env), gsxBool(e.Y, env)
-			return gsxrt.Or(gsxrt.And(e.Op == token.LAND, l, r), gsxrt.And(e.Op == token.LOR, gsxrt.Or(l, r)))
+			if !env.impure {
+				l, r := gsxBool(e.X, env), gsxBool(e.Y, env)
+				return gsxrt.Or(gsxrt.And(e.Op == token.LAND, l, r), gsxrt.And(e.Op == token.LOR, gsxrt.Or(l, r)))
+			}
+			// with an impure operand the right side runs only if the left one does not decide
+			l := gsxBool(e.X, env)
+			if e.Op == token.LAND {
+				if !l {
+					return false
+				}
+				return gsxBool(e.Y, env)
+			}
+			if l {
+				return true
+			}
+			return gsxBool(e.Y, env)
 		}
 		l, r := gsxNum(e.X, env), gsxNum(e.Y, env)
 		return gsxrt.Or(
@@ -100,9 +132,11 @@ func gsxBool(e ast.Expr, env *gsxVals) bool {
 // ---- well-typed expression templates with symbolic content
 
 type gsxGen struct {
-	info *types.Info
-	num  types.Type
-	n    int
+	info   *types.Info
+	num    types.Type
+	n      int
+	impure bool // offer the call f() as an operand
+	used   bool // f() was used
 }
 
 func (g *gsxGen) name(s string) string { g.n++; return s + strconv.Itoa(g.n) }
@@ -115,8 +149,17 @@ func (g *gsxGen) typed(e ast.Expr, t types.Type) ast.Expr {
 func (g *gsxGen) numExpr(depth int) ast.Expr {
 	switch gsxrt.Choose(g.name("num"), 2+depth) {
 	case 0:
-		if gsxrt.Choose(g.name("var"), 2) == 0 {
+		nvars := 2
+		if g.impure {
+			nvars = 3
+		}
+		switch gsxrt.Choose(g.name("var"), nvars) {
+		case 0:
 			return g.typed(&ast.Ident{Name: "x"}, g.num)
+		case 2:
+			// a call of a function with side effects: f()
+			g.used = true
+			return g.typed(&ast.CallExpr{Fun: &ast.Ident{Name: "f"}}, g.num)
 		}
 		return g.typed(&ast.Ident{Name: "y"}, g.num)
 	case 1:
@@ -160,21 +203,30 @@ func (g *gsxGen) boolExpr(depth int) ast.Expr {
 // have the same value for all values of the operands - for every operator
 // combination, every literal spelling (decimal and octal) and int as well as
 // float64 operands.
-func gsxC10BoolSimplify() { gsxC10Bool(gsxrt.Choose("operandType", 3)) }
+func gsxC10BoolSimplify() { gsxC10Bool(gsxrt.Choose("operandType", 4)) }
 
 // one entry per operand type, so that each gets its own exploration budget
 // (the model keeps the choice under the same name for the replay)
 func gsxC10BoolSimplifyInt() {
-	gsxrt.Assume(gsxrt.Choose("operandType", 3) == 0)
+	gsxrt.Assume(gsxrt.Choose("operandType", 4) == 0)
 	gsxC10Bool(0)
 }
 func gsxC10BoolSimplifyFloat() {
-	gsxrt.Assume(gsxrt.Choose("operandType", 3) == 1)
+	gsxrt.Assume(gsxrt.Choose("operandType", 4) == 1)
 	gsxC10Bool(1)
 }
 func gsxC10BoolSimplifyNamedFloat() {
-	gsxrt.Assume(gsxrt.Choose("operandType", 3) == 2)
+	gsxrt.Assume(gsxrt.Choose("operandType", 4) == 2)
 	gsxC10Bool(2)
+}
+
+// gsxC10BoolSimplifyImpure: int operands, one of which may be the call f()
+// (a fresh value and an observable side effect per evaluation): the suggestion
+// has the same value AND evaluates f() the same number of times, in the same
+// order (left to right, short-circuit included).
+func gsxC10BoolSimplifyImpure() {
+	gsxrt.Assume(gsxrt.Choose("operandType", 4) == 3)
+	gsxC10Bool(3)
 }
 
 func gsxC10Bool(operandType int) {
@@ -190,6 +242,8 @@ func gsxC10Bool(operandType int) {
 	g := &gsxGen{info: ctx.TypesInfo, num: types.Typ[types.Int]}
 	env := &gsxVals{x: gsxrt.IntRange("x", -64, 64), y: gsxrt.IntRange("y", -64, 64)}
 	switch operandType {
+	case 3:
+		g.impure = true
 	case 1:
 		g.num, env.float = types.Typ[types.Float64], true
 	case 2:
@@ -211,6 +265,18 @@ func gsxC10Bool(operandType int) {
 	}
 	if env.float {
 		cat = "float64 operands"
+	}
+	if g.impure {
+		if !g.used {
+			return // covered by the pure entries
+		}
+		fv := []int{gsxrt.IntRange("f0", -64, 64), gsxrt.IntRange("f1", -64, 64), gsxrt.IntRange("f2", -64, 64), gsxrt.IntRange("f3", -64, 64)}
+		e1 := &gsxVals{x: env.x, y: env.y, fvals: fv, impure: true}
+		e2 := &gsxVals{x: env.x, y: env.y, fvals: fv, impure: true}
+		v1, v2 := gsxBool(root, e1), gsxBool(sugg, e2)
+		gsxrt.Reached("impure simplified")
+		gsxrt.Assert(v1 == v2 && e1.calls == e2.calls, "simplify: [impure operand] the suggested expression does not evaluate f() as often / in the same order as the original, or has another value")
+		return
 	}
 	gsxrt.Assert(gsxBool(root, env) == gsxBool(sugg, env), "simplify: ["+cat+"] the suggested expression does not have the value of the original for all operand values")
 }
